@@ -29,8 +29,13 @@ Libs ==
    doc  |-> ("t" :> <<Seg("noinclude", <<TI(<<"doc">>)>>), Seg("plain", BodyShow), Seg("comment", <<TI(<<"z">>)>>)>>),
    star |-> ("t" :> <<Seg("plain", <<TI(<<"*">>), Par(<<"1">>)>>)>>),
    tags |-> ("t" :> <<Seg("plain", BodyTags)>>),
-   none |-> ("u" :> <<Seg("plain", <<TI(<<"u">>)>>)>>)]          \* no template t: the call goes nowhere
-LibNames == {"show", "doc", "star", "tags", "none"}
+   none |-> ("u" :> <<Seg("plain", <<TI(<<"u">>)>>)>>),          \* no template t: the call goes nowhere
+   \* the hooks node_to_html passes through to expand(): the harness installs NO template t and passes
+   \* template_fn = (t -> "%F%"), resp. installs `show` and passes post_template_fn = (t -> "%P%");
+   \* for the specification that is a template t with that body
+   fn   |-> ("t" :> <<Seg("plain", <<TI(<<"%", "F", "%">>)>>)>>),
+   post |-> ("t" :> <<Seg("plain", <<TI(<<"%", "P", "%">>)>>)>>)]
+LibNames == {"show", "doc", "star", "tags", "none", "fn", "post"}
 
 (* ---------------- the to_text family ---------------- *)
 El(tag, attrs, kids) == Nd("HTML", <<tag>>, <<>>, attrs, kids)
